@@ -4,7 +4,7 @@ import Tahoe.Introducer.Model
 
     intro <subs> <tok>…        subs = `-` or comma-separated service ids subscribed before the stream
 
-  tok  `|` (batch boundary) | `G` (not a 3-tuple of bytes/None) | `<msg>:<parsed>/<sig>/<key>`
+  tok  `|` (batch boundary) | `+<service id>` alone in a batch (a `subscribe_to` call at that point) | `G` (not a 3-tuple of bytes/None) | `<msg>:<parsed>/<sig>/<key>`
        msg     Nat id of the message bytes
        parsed  `X` (not UTF-8 / not JSON) | `c<content>.<svc>.<desc>.<seq>`
                svc `U` (ann["service-name"] raises) | `s<id>`;  desc `0` | `1` (description raises)
@@ -91,28 +91,49 @@ def cnt (os : List Outcome) (p : Outcome → Bool) : Nat := (os.filter p).length
 
 def showList (l : List String) : String := if l.isEmpty then "-" else ",".intercalate l
 
-def runBatches (parse : Nat → Option Ann) (subs : List Nat) :
-    State Nat → List (List (Wire Nat SymSig Nat)) → List String → State Nat × List String
-  | st, [], acc => (st, acc.reverse)
-  | st, b :: bs, acc =>
+/-- a batch that is the single token `+<service id>` is a `subscribe_to` call -/
+def subscribeTok (b : List String) : Option Nat :=
+  match b with
+  | [t] => match t.toList with
+    | '+' :: r => (String.ofList r).toNat?
+    | _ => none
+  | _ => none
+
+/-- events through the model's `gotEvents` one at a time (to print the deliveries of each) -/
+def runEvents (parse : Nat → Option Ann) :
+    List Nat → State Nat → List (Ev Nat SymSig Nat) → List String → State Nat × List String
+  | _, st, [], acc => (st, acc.reverse)
+  | subs, st, .subscribe svc :: evs, acc =>
+    let r := gotEvents symVerify parse subs st [.subscribe svc]
+    let d := (r.2.delivered.drop st.delivered.length).map (fun e => s!"{e.1}:{e.2.content}")
+    runEvents parse r.1 r.2 evs (s!"U=-;C=0.0.0.0.0;D={showList d}" :: acc)
+  | subs, st, .batch b :: evs, acc =>
     let us := b.map (fun w => showU (unsign symVerify parse w))
     let os := batchOutcomes symVerify parse subs st b
-    let st' := gotBatch symVerify parse subs st b
+    let st' := (gotEvents symVerify parse subs st [.batch b]).2
     let inb := cnt os (fun o => match o with | .skipped _ => false | _ => true)
     let c := s!"{inb}.{cnt os (· == .wrongService)}.{cnt os (· == .duplicate)}.{cnt os (· == .update)}.{cnt os (· == .new)}"
     let d := (st'.delivered.drop st.delivered.length).map (fun e => s!"{e.1}:{e.2.content}")
-    runBatches parse subs st' bs (s!"U={showList us};C={c};D={showList d}" :: acc)
+    runEvents parse subs st' evs (s!"U={showList us};C={c};D={showList d}" :: acc)
 
 def handle : List String → String
   | "intro" :: subsT :: toks =>
-    match parseNatList subsT, (splitBatches toks).mapM (fun b => b.mapM parseWire) with
+    match parseNatList subsT, (splitBatches toks).mapM (fun b =>
+        match subscribeTok b with
+        | some _ => some []
+        | none => b.mapM parseWire) with
     | some subs, some bws =>
+      let marks := (splitBatches toks).map subscribeTok
       let table := (bws.flatten.filterMap (·.2))
       let parse : Nat → Option Ann := fun m =>
         match table.find? (fun e => e.1 == m) with
         | some e => e.2
         | none => none
-      let (st, outs) := runBatches parse subs ⟨[], []⟩ (bws.map (fun b => b.map (fun x => decodeWire decKey x.1))) []
+      let evs : List (Ev Nat SymSig Nat) := (bws.zip marks).map (fun bm =>
+        match bm.2 with
+        | some svc => Ev.subscribe svc
+        | none => Ev.batch (bm.1.map (fun x => decodeWire decKey x.1)))
+      let (st, outs) := runEvents parse subs ⟨[], []⟩ evs []
       let store := st.store.map (fun e => match e.1.1, e.1.2, e.2 with
         | s, k, a => s!"{s}.{k}:{a.content}")
       "|".intercalate outs ++ "#S=" ++ showList store
